@@ -3,12 +3,22 @@ import os
 import subprocess
 import sys
 
-from engine import NCPU, SPEC, MachineryError, gen_states, pool_map
+from engine import NCPU, REPO, SPEC, MachineryError, gen_states, pool_map
 from tlaval import parse_action_label
 import tours
 
 NODE1 = "ACGTTGCAAGGCTTAACGGATCCA"
 NODE2 = "TTGACCGATAGGCATCAAGT"
+
+
+def RN(i):
+    """name of the i-th read: text order is the REVERSE of input order, so that equal priorities broken by record
+    text can never restore the input order by accident"""
+    return f"r{100 - i}"
+
+
+def prio_of(name):
+    return 100 - int(name[1:]) if name[1:].isdigit() else 0
 
 
 def make_inputs(d, R):
@@ -29,10 +39,10 @@ def make_inputs(d, R):
             k = (3 * i) % len(seq)
             seq[k] = "A" if seq[k] != "A" else "C"
             seq = "".join(seq)
-            f.write(f">r{i}\n{seq}\n")
+            f.write(f">{RN(i)}\n{seq}\n")
             L = len(seq)
             g.write(
-                f"r{i}\t{L}\t0\t{L}\t+\t>s1>s2\t{len(path)}\t{ps}\t{pe}\t{L-1}\t{L}\t60\ttp:A:P\tcg:Z:{L}=\n"
+                f"{RN(i)}\t{L}\t0\t{L}\t+\t>s1>s2\t{len(path)}\t{ps}\t{pe}\t{L-1}\t{L}\t60\ttp:A:P\tcg:Z:{L}=\n"
             )
     import pysam
 
@@ -43,7 +53,7 @@ def make_inputs(d, R):
 def reference_output(gaf, gfa, fa, B, d):
     """single-core output with REAL multiprocessing, in a separate interpreter"""
     out = os.path.join(d, f"ref_{B}.gaf")
-    env = dict(os.environ, GAFTOOLS_VERIF="1", GAFTOOLS_VERIF_BATCH_SIZE=str(B), PYTHONPATH="/repo")
+    env = dict(os.environ, GAFTOOLS_VERIF="1", GAFTOOLS_VERIF_BATCH_SIZE=str(B), PYTHONPATH=REPO)
     p = subprocess.run(
         [sys.executable, "-m", "gaftools", "realign", gaf, gfa, fa, "-o", out, "-c", "1"],
         env=env, capture_output=True, text=True, timeout=120,
@@ -61,7 +71,7 @@ def cfg_text(k, properties=True):
         f"MaxFaults = {k['F']}  FaultKinds = {kinds}  Fixed = {'TRUE' if k.get('Fixed', True) else 'FALSE'}\n"
     )
     if properties:
-        s += "INVARIANT TypeOK\nINVARIANT NoCrash\nINVARIANT OutPrefix\nINVARIANT FinishedComplete\nINVARIANT NoAbortWithoutFault\nPROPERTY Terminates\n"
+        s += "INVARIANT TypeOK\nINVARIANT NoCrash\nINVARIANT OutPrefix\nINVARIANT FinishedComplete\nINVARIANT NoAbortWithoutFault\nINVARIANT NoLiveWorkerAtExit\nPROPERTY Terminates\n"
     else:
         s += "POSTCONDITION AllConsumed\n"
     s += "CHECK_DEADLOCK FALSE\n"
@@ -76,7 +86,7 @@ def write_cfg(ctx, k, properties=True):
 
 
 def _names(prios):
-    return [f"r{p}" for p in prios]
+    return [RN(p) for p in prios]
 
 
 _JOB_ENV = {}
@@ -86,7 +96,7 @@ def _outcome_case(cid, k, res, ref):
     prios = []
     for l in res["written"]:
         nm = l.split("\t")[0]
-        prios.append(int(nm[1:]) if nm[1:].isdigit() else 0)
+        prios.append(prio_of(nm))
     return {"id": cid, "R": k["R"], "faults": res["faults"], "end": res["end"], "end_detail": res["end_detail"], "prios": prios,
             "lines": res["written"], "ref": ref, "diverged": res["diverged"]}
 
@@ -120,7 +130,7 @@ def random_job(job):
     trace, end, written = run_random(argv, k["Cap"], k["C"], seed, max_faults=k["F"], fault_kinds=k["kinds"])
     for e in trace:
         if e["t"] == "PDrain":
-            e["prios"] = [int(l.split("\t")[0][1:]) for l in e.pop("lines")]
+            e["prios"] = [prio_of(l.split("\t")[0]) for l in e.pop("lines")]
     return {
         "id": cid,
         "trace": trace,
@@ -242,7 +252,7 @@ def real_mp_tier(ctx, R, B, C, kill_at=None, delay=None):
     d = os.path.join(ctx.scratch, f"real_{R}_{B}_{C}_{kill_at}")
     gaf, gfa, fa = make_inputs(d, R)
     out = os.path.join(d, "out.gaf")
-    env = dict(os.environ, GAFTOOLS_VERIF="1", GAFTOOLS_VERIF_BATCH_SIZE=str(B), PYTHONPATH="/repo")
+    env = dict(os.environ, GAFTOOLS_VERIF="1", GAFTOOLS_VERIF_BATCH_SIZE=str(B), PYTHONPATH=REPO)
     if delay:
         env["VERIF_REALMP_DELAY"] = delay
     driver = os.path.join(os.path.dirname(os.path.dirname(os.path.abspath(__file__))), "realmp_driver.py")
